@@ -23,6 +23,7 @@ type Case struct {
 	OutPayload int      `json:"out_payload,omitempty"`
 	OutMore    []int    `json:"out_more,omitempty"` // further outgoing payload sizes, written right after the first with consecutive sequence numbers
 	Dirty      byte     `json:"dirty"`
+	SpareCap   bool     `json:"spare_cap,omitempty"` // the short caller buffer is a sub-slice of a larger one (len < cap): still only len bytes are the caller's to fill
 	ReadBuf    int      `json:"read_buf,omitempty"` // size of the caller's buffer for the hostile reads (0: 1700 bytes); a short one truncates like a datagram read
 	Fast       bool     `json:"fast,omitempty"` // fuzzing: skip the pauses that let ticker goroutines run
 	Order      uint64   `json:"order,omitempty"` // "chain": 0 keeps the catalog order, otherwise the seed of a permutation of the members
@@ -144,7 +145,11 @@ func execute(c *Case) string { //nolint:cyclop
 		r.rtpSrc.Push(raw)
 		buf := bytes.Repeat([]byte{c.Dirty}, 1700)
 		if !wellFormed && c.ReadBuf > 0 {
-			buf = buf[:c.ReadBuf-1 : c.ReadBuf-1] // ReadBuf 1 is the empty buffer
+			if c.SpareCap {
+				buf = buf[:c.ReadBuf-1] // len < cap (1700)
+			} else {
+				buf = buf[:c.ReadBuf-1 : c.ReadBuf-1] // ReadBuf 1 is the empty buffer
+			}
 			if len(raw) > len(buf) {
 				raw = raw[:len(buf)] // what the transport hands over
 			}
